@@ -94,6 +94,34 @@ template <class X> void run(Ctx& c, const StrVec& fam) {
     }
 }
 
+// Operands that alias: several URIs parsed from prefixes of ONE buffer, so that corresponding components start at the same
+// address and differ only in where they end (a comparison that short-cuts on pointer identity goes wrong exactly here).
+template <class X> void run_aliased(Ctx& c, const Str& text) {
+    typedef typename X::Char Char; typedef typename X::Uri Uri;
+    typename X::S buf = widen<X>(text);
+    struct Obj { Uri u; Str t; Comp m; };
+    std::vector<std::unique_ptr<Obj>> v;
+    for (size_t m = text.size() + 1; m-- > 0 && v.size() < 7;) {
+        Str t = text.substr(0, m); size_t e; if (!dfa_uriref(t, &e)) continue;
+        std::unique_ptr<Obj> o(new Obj()); const Char* ep; int rc; { LibScope ls; rc = X::ParseSingleUriEx(&o->u, buf.data(), buf.data() + m, &ep); }
+        if (rc != URI_SUCCESS) continue;
+        if (!faithful_uri<X>(o->u, t)) { LibScope ls; X::FreeUriMembers(&o->u); c.count("skipped_unfaithful_parse"); continue; }
+        o->t = t; o->m = split(t); v.push_back(std::move(o));
+    }
+    c.note(fmt("%s equals aliased prefixes of \"%s\"", X::tag(), esc(text.substr(0, 150)).c_str()));
+    for (size_t i = 0; i < v.size(); i++) for (size_t j = 0; j < v.size(); j++) {
+        int r; { LibScope ls; r = X::EqualsUri(&v[i]->u, &v[j]->u); } c.evaluations++;
+        bool want = comp_diff(v[i]->m, v[j]->m).empty();
+        if ((r != 0) != want) c.violation("C11", fmt("equals/%s/aliased/%s", X::tag(), want ? "says-different-for-identical" : "says-equal-for-different"), fmt("both parsed from one buffer: a=\"%s\" b=\"%s\" library=%d", esc(v[i]->t).c_str(), esc(v[j]->t).c_str(), r));
+        else c.count("aliased_pairs_agree");
+    }
+    // an aliased operand against a separately parsed copy of the other text (transitivity across buffers)
+    for (size_t i = 0; i + 1 < v.size(); i++) { UriBox<X> sep; if (sep.parse(v[i + 1]->t) != URI_SUCCESS) continue; int r; { LibScope ls; r = X::EqualsUri(&v[i]->u, &sep.u); } c.evaluations++;
+        bool want = comp_diff(v[i]->m, v[i + 1]->m).empty();
+        if ((r != 0) != want) c.violation("C11", fmt("equals/%s/aliased-vs-separate/%s", X::tag(), want ? "says-different-for-identical" : "says-equal-for-different"), fmt("a=\"%s\" b=\"%s\" library=%d", esc(v[i]->t).c_str(), esc(v[i + 1]->t).c_str(), r)); }
+    for (auto& o : v) { LibScope ls; X::FreeUriMembers(&o->u); }
+}
+
 static void run_case(Ctx& c, uint64_t idx) {
     Rng& r = c.rng; Str seed;
     for (int t = 0; t < 30; t++) { UriGenOpts o; o.maxSegs = 4; o.longSeg = false; seed = idx < 2000 ? gdegenerate_case(idx * 31 + (uint64_t)t) : gen_uri(r, o); size_t e; if (dfa_uriref(seed, &e)) break; seed = "a://h/p?q#f"; }
@@ -101,6 +129,7 @@ static void run_case(Ctx& c, uint64_t idx) {
     c.count("family_members", fam.size());
     run<ApiA>(c, fam);
     if (idx % 2 == 0) run<ApiW>(c, fam);
+    if (idx % 2) run_aliased<ApiA>(c, seed); else run_aliased<ApiW>(c, seed);
     if (idx % 500 == 1) c.sample("family", esc(seed) + fmt(" (+%zu variants, e.g. ", fam.size() - 1) + esc(fam.size() > 1 ? fam[1] : "") + ")");
 }
 static Monitor mon = {"equals", "C11: uriEqualsUri over near-duplicate families vs component-wise identity", "C11", ncases, run_case, nullptr};
